@@ -11,6 +11,7 @@ CONSTANTS NL, NN,      \* number of logins / names
           Ops,         \* step kinds enabled (a kind may be listed as "update1", "update2", "update3": batch length)
           SubKinds,    \* sub-operation kinds enabled in batches
           Thin,        \* TRUE: in batches longer than one, name and privileges are a function of position
+          XPw,         \* TRUE: two more passwords: one that STARTS with the marker byte but is longer, one that contains it
           Long,        \* TRUE: one more login, of 251 bytes (its account file name would exceed 255 bytes)
           Rand         \* TRUE (simulation only): one random step kind and one random step of that kind per state
 
@@ -23,8 +24,12 @@ Logins == {<<96 + i>> : i \in 1..NL} \cup (IF Long THEN {LongLogin} ELSE {})
 Names == {<<78, 48 + i>> : i \in 1..NN}
 P == <<112>>  Q == <<113>>
 Absent == [has |-> FALSE, v |-> <<>>]
+MP == <<255, 113>>        \* wire form 0, 142: begins like the marker; only the exact one-byte marker means "unchanged"
+PM == <<112, 255, 113>>   \* wire form 143, 0, 142: contains the marker byte
+ExtraPws == IF XPw THEN {MP, PM} ELSE {}
 PwArgs == {Absent, [has |-> TRUE, v |-> Marker], [has |-> TRUE, v |-> P], [has |-> TRUE, v |-> Q]}
-ClearPws == {<<>>, P, Q, Marker}
+          \cup {[has |-> TRUE, v |-> x] : x \in ExtraPws}
+ClearPws == {<<>>, P, Q, Marker} \cup ExtraPws
 Accs == {{}, {2, 9}}
 
 AdminLogin == <<97, 100, 109, 105, 110>>
